@@ -75,6 +75,7 @@ struct Stmt {
   // "header switch" statement: reads hdrs while the source hsel has its first content, hdrs2 afterwards; writes a constant
   string hsel;
   vector<string> hdrs2;
+  bool split = false;      // the second output is made from the first explicit input alone
   vector<string> AllOuts() const {
     vector<string> r = outs;
     r.insert(r.end(), iouts.begin(), iouts.end());
@@ -112,6 +113,7 @@ static Stmt ParseStmt(const JV& j) {
   s.outp = j["outp"].strs();
   s.genlvl = j["genlvl"].str();
   s.hsel = j["hsel"].str(); s.hdrs2 = j["hdrs2"].strs();
+  s.split = j["split"].boolean();
   return s;
 }
 
@@ -345,6 +347,7 @@ struct FailSpec { int code = 0; bool touch = false; bool edep = false; };   // e
 struct Running {
   Edge* edge; Stmt* st; string content; int64_t start; bool console;
   vector<string> hdrs;   // the files the command read beyond its declared inputs (reported in depfile / showIncludes)
+  string content2;       // split statements: what the second output gets
 };
 
 struct InvocationCtx {
@@ -461,7 +464,8 @@ struct ModelRunner : public CommandRunner {
     bool dirs = true;
     for (auto& o : st->AllOuts()) dirs = dirs && g_disk.DirOk(o);
     if (st->deps == "depfile" || st->deps == "gcc") dirs = dirs && g_disk.DirOk(st->outs[0] + ".d");
-    g_inv->running.push_back(Running{edge, st, content, g_disk.clock, edge->use_console(), hdrs});
+    string content2 = st->split && !ins.empty() ? Term("e" + to_string(st->id) + "b", ver, {ins[0]}) : string("");
+    g_inv->running.push_back(Running{edge, st, content, g_disk.clock, edge->use_console(), hdrs, content2});
     // pool usage as seen by an observer: running members per pool
     map<string, int> pu;
     for (auto& r : g_inv->running) pu[r.st->pool]++;
@@ -518,6 +522,7 @@ struct ModelRunner : public CommandRunner {
         string c = r.content;
         bool term = true;
         if (o == st->mkdd) { c = DdText(*g_sc, o); term = false; }
+        if (st->split && st->outs.size() >= 2 && o == st->outs[1]) c = r.content2;
         auto f = g_disk.files.find(o);
         bool restat = st->restat || st->ddr;
         if (restat && f != g_disk.files.end() && f->second.content == c) continue;  // leaves it untouched
@@ -1079,7 +1084,7 @@ static string GraphJson(const Scenario& sc) {
          ",\"ddr\":" + (s.ddr ? "true" : "false") + ",\"mkdd\":" + JEsc(s.mkdd) + ",\"ver\":" + to_string(s.ver) +
          ",\"rspver\":" + to_string(s.rspver) + ",\"vstr\":" + JEsc((s.gen ? string("gen") : "v" + to_string(s.ver)) + (s.rsp ? "|" + RspContent(s) : string(""))) +
          ",\"en\":" + JEsc("e" + to_string(s.id)) + ",\"rsppath\":" + JEsc(s.rsp ? RspPath(s) : string("")) + ",\"rsptxt\":" + JEsc(s.rsp ? RspContent(s) : "") + ",\"ddtxt\":" + JEsc(s.mkdd.empty() ? "" : DdText(sc, s.mkdd)) +
-         (s.hsel.empty() ? string("") : ",\"hsel\":" + JEsc(s.hsel) + ",\"hdrs2\":" + JStrs(s.hdrs2)) + "}";
+         (s.hsel.empty() ? string("") : ",\"hsel\":" + JEsc(s.hsel) + ",\"hdrs2\":" + JStrs(s.hdrs2)) + (s.split ? ",\"split\":true" : "") + "}";
   }
   return r + "]}";
 }
